@@ -69,7 +69,7 @@ CLAIMS = {
              TECH_VC + "; " + TECH_EFF + "; " + TECH_BND),
     "C08": C("Proved: optimize()'s prologue re-establishes the fresh book-keeping state (loop invariant initialisation needs it); EFF INIT: "
              "every instance field an optimizer writes during a run is re-bound unconditionally in a per-run hook before any read; "
-             "FRAME-book. Bounded: second optimize() on a used instance equals a fresh instance, all 84 optimizers.",
+             "FRAME-book; FRAME-cfg (a run that writes into its configuration would hand state to the next run). Bounded: second optimize() on a used instance equals a fresh instance, all 84 optimizers.",
              NOTE_VC + NOTE_HOOKS, TECH_VC + "; " + TECH_EFF + "; " + TECH_BND),
     "C09": C("Proved (kernel): optimize() leaves every field of every object that existed at entry and every list that existed at entry "
              "unchanged, except the optimizer's own run state - on normal and on ValueError exits (frame postcondition and loop invariant, "
@@ -110,8 +110,10 @@ CLAIMS = {
              "declared variable gives to that coordinate; empty_solution has one in-domain, non-NaN coordinate per dimension; "
              "correct_solution has one coordinate per dimension and acts coordinate-wise with the owning flattened variable; "
              "initial_solution, solve. All against the abstract Variable contract (size / has_children / get / randomize / get_bounds / "
-             "correct). Bounded (law campaign over 30 variable mixes incl. size-1 multi-variables and single permutations): the seven "
-             "classes refine that abstract contract, lower <= upper, transform_solution.",
+             "correct). The seven classes' size / has_children / get are verified against that abstract contract under their object "
+             "invariants. Bounded (law campaign over 30 variable mixes incl. size-1 multi-variables, single permutations and several "
+             "tasks of one layout in one process): constructors establish the invariants, randomize / get_bounds of the composite "
+             "classes, lower <= upper, transform_solution.",
              NOTE_VC + "Object invariant of Task / Variable (task_wf, var_wf: the variable list and the children are the ones built by the "
              "constructors) is assumed at entry of the Task methods: the constructor part about space_dimension is proved, the package "
              "never writes these fields (EFF FRAME-cfg). Prefix-sum / segment lemmas are axioms (proved in lemmas/L2.lean). "
@@ -124,11 +126,14 @@ CLAIMS = {
     "C16": C("Every selection helper (sort_by_cost, sort_and_trim, best/worst_agent(s), *_indexes, special_agents, greedy selection of agents "
              "and populations, extend / replace and trim) is verified for all populations, all n, both directions, ties and infinite costs: "
              "result = the prescribed slice of the stable cost order of the caller's list (membership at distinct indices, order, optimality, "
-             "caller's list and objects untouched). Unbounded (symbolic list length).",
+             "caller's list and objects untouched). Unbounded (symbolic list length). The one optimizer that overrides the greedy selection "
+             "with the same rule (BeeColony) is held to the same contract.",
              NOTE_VC + "Lemma L1 (sorted arrangements of one multiset coincide) for the *_indexes cost clause.", TECH_VC),
     "C17": C("Proved: _greedy_select_agent returns the challenger only if strictly cheaper, else a copy of the incumbent; _greedy_select_population, "
-             "_extend_and_trim_population, sort_and_trim keep the cheapest. EFF ELITE: 56 classes whose every replacement of the population "
-             "goes through these forms (committed list; a class dropping out is a violation). Bounded: best cost monotone on real runs.",
+             "_extend_and_trim_population, sort_and_trim keep the cheapest; the two overrides of the greedy selection in optimizer classes "
+             "(BeeColony, Bat) are verified to stay elitist. EFF ELITE: 56 classes whose every replacement of the population "
+             "goes through these forms (committed list; a class dropping out is a violation); EFF INIT (a run never starts from a previous "
+             "run's state). Bounded: best cost monotone on real runs, also at populations well below the documented scale.",
              NOTE_VC + "The step from 'every replacement is a greedy form' to 'min cost never increases' is argued per form, not re-derived "
              "by the solver for each class (DESIGN §7).", TECH_VC + "; " + TECH_EFF + "; " + TECH_BND),
     "C18": C("EFF CTOR on all 84 classes: constructible without arguments, the constructor stores the configuration and never dereferences it, "
@@ -139,20 +144,25 @@ CLAIMS = {
 }
 
 CLAIMS["C19"] = C(
-    "Bounded only (no obligation is counted as proved): the run-time form of the contract on the family the property names - ParameterGrid "
+    "EFF CTOR on all 84 classes (set_config_parameters builds exactly <config class>(**parameters): a grid point is evaluated with its own "
+    "parameters and nothing left over from the previous point). Otherwise bounded: the run-time form of the contract on the family the property names - ParameterGrid "
     "laws (iteration = union of key-sorted products, len and indexing agree, IndexError beyond) exhaustively for 1..3 keys x 1..3 values, "
     "dict and list of dicts; HyperTuner.execute with a scripted optimizer whose calls are logged: every grid point exactly once per trial "
     "with exactly its parameters, best_parameters a grid point with the optimal mean in the task's direction (ties, min and max), "
     "best_score that mean, resolve() runs with those parameters.",
     "ParameterGrid is generator / itertools code and HyperTuner.execute is pandas + process pools: outside the Python subset of the VC "
     "generator, so contract-based deduction does not reach it; the bounded stand-in the brief allows is used and labelled as such.",
-    TECH_BND, category="exploration")
+    TECH_EFF + "; " + TECH_BND, category="exploration")
 CLAIMS["C20"] = C(
-    "Bounded only (no obligation is counted as proved): n, m in 1..3 x the four documented shapes of modes plus None x 1..2 trials with "
-    "scripted optimizers and distinct task classes: every (algorithm, task) pair runs exactly n_trials times in its designated mode with the "
-    "given worker count, one table per algorithm (column per task, row per trial), unknown modes rejected at construction, export writes one "
-    "file per algorithm under <save_path>/<algorithm name>/ in the three formats.",
-    "Multitask is pandas / process-pool / filesystem code outside the VC subset; bounded stand-in, labelled as such.",
-    TECH_BND, category="exploration")
+    "Proved for all n, m >= 1 and all lengths of `modes`: Multitask.__check_input__ expands `modes` to one mode per (algorithm, task) pair "
+    "with the documented precedence (one value; per algorithm; per task; per pair, algorithm-major), raises ValueError iff the length is "
+    "none of 1, n, m, n*m, keeps None; __get_mode__ returns the designated mode of the pair (serial when no modes were given) and raises "
+    "ValueError iff it is not a solver mode. Bounded: n, m in 1..3 x the four documented shapes of modes plus None x 1..2 trials x worker "
+    "counts with scripted optimizers and distinct task classes: every (algorithm, task) pair runs exactly n_trials times in its designated "
+    "mode with the given worker count, one table per algorithm (column per task, row per trial), unknown modes rejected at construction, "
+    "export writes one file per algorithm under <save_path>/<algorithm name>/ in the three formats.",
+    NOTE_VC + "execute / __parallelize__ / export_results are pandas / process-pool / filesystem code outside the VC subset: bounded "
+    "stand-in, labelled as such; __check_modes__ (itertools.chain) likewise.",
+    TECH_VC + "; " + TECH_BND, category="exploration")
 
 NOT_APPLICABLE = {}
